@@ -17,7 +17,7 @@ from sa.ctx import Ctx, short, stmt_key
 from sa.cfg import NORMAL, describe_path
 from sa.lockset import LockSet
 from sa.report import Report
-from sa.util import cfg_root, node_has_call, node_stores_attr, has_fact
+from sa.util import cfg_root, node_has_call, node_stores_attr, has_fact, fact_in
 from sa import pat
 
 OFFLINE = ("MockProvider", "FileSystemProvider")
@@ -236,14 +236,26 @@ class C16:
                       "%s does not switch between the fast digest (final) and the full digest (not final)" % f.name)
         # finality constants: `last` is empty exactly when length <= T, and `first` reads N bytes: final must imply covered, i.e. T <= N
         N = T = None
+        rets = [n for n in ctx.own_nodes(fhd) if isinstance(n, ast.Return) and isinstance(n.value, ast.Tuple) and len(n.value.elts) == 2]
+        # return get_hash(<first> + <last>), not <last>
+        lastn = firstn = None
+        for r in rets:
+            m = pat.match("not $L", r.value.elts[1])
+            if m and isinstance(m["L"], ast.Name):
+                lastn = m["L"].id
+            for x in ast.walk(r.value.elts[0]):
+                if isinstance(x, ast.BinOp) and isinstance(x.op, ast.Add) and isinstance(x.left, ast.Name) and isinstance(x.right, ast.Name) and x.right.id == lastn:
+                    firstn = x.left.id
         for n in ctx.own_nodes(fhd):
-            if isinstance(n, ast.Assign) and isinstance(n.targets[0], ast.Name) and n.targets[0].id == "first" and isinstance(n.value, ast.Call) and n.value.args:
+            if isinstance(n, ast.Assign) and isinstance(n.targets[0], ast.Name) and n.targets[0].id == firstn and isinstance(n.value, ast.Call) and n.value.args:
                 N = _const(n.value.args[0])
             if isinstance(n, ast.If) and isinstance(n.test, ast.Compare) and len(n.test.ops) == 1 and isinstance(n.test.ops[0], ast.Gt) \
-                    and any(isinstance(x, ast.Assign) and isinstance(x.targets[0], ast.Name) and x.targets[0].id == "last" for x in n.orelse):
+                    and any(isinstance(x, ast.Assign) and isinstance(x.targets[0], ast.Name) and x.targets[0].id == lastn for x in n.orelse):
                 T = _const(n.test.comparators[0])
-        rets = [n for n in ctx.own_nodes(fhd) if isinstance(n, ast.Return) and isinstance(n.value, ast.Tuple) and len(n.value.elts) == 2]
-        fin_ok = bool(rets) and all(pat.match("not last", r.value.elts[1]) is not None for r in rets)
+            if isinstance(n, ast.If) and isinstance(n.test, ast.Compare) and len(n.test.ops) == 1 and isinstance(n.test.ops[0], ast.LtE) \
+                    and any(isinstance(x, ast.Assign) and isinstance(x.targets[0], ast.Name) and x.targets[0].id == lastn for x in n.body):
+                T = _const(n.test.comparators[0])
+        fin_ok = bool(rets) and lastn is not None and firstn is not None
         if N is None or T is None or not fin_ok:
             rep.error("rule=C16.P3 reason=undecided: _fast_hash_data is outside the recognised shape (first = read(N); if length > T: ... else: last = b''; return digest, not last)")
         else:
@@ -320,11 +332,11 @@ class C16:
         f = self.P.methods["connect"]
         g = ctx.cfg(f)
         raises = [n for n in g.nodes if n.kind == "stmt" and isinstance(n.ast, ast.Raise) and "CloudTokenError" in ast.unparse(n.ast)]
-        good = bool(raises) and all(("self.connection_id == new_id", False) in ctx.facts(f).facts(r) and ("self.connection_id", True) in ctx.facts(f).facts(r) for r in raises)
+        good = bool(raises) and all(has_fact(ctx.facts(f).facts(r), "self.connection_id == $N", False) and fact_in(ctx.facts(f).facts(r), "self.connection_id", True) for r in raises)
         rep.check("C16.P5", "connect|mismatch", f, good, "raise under `connection_id set and != new id`", "connect() no longer rejects credentials of a different account")
         setc = [n for n in g.nodes if node_stores_attr(n, "__connected", "True")]
-        tests = [n for n in g.nodes if n.kind == "test" and pat.match("self.connection_id != new_id", n.ast) is not None]
-        pth = g.reach([g.entry.id], lambda n: n in setc, avoid=lambda n: n in tests or (n.kind == "test" and pat.match("self.connection_id", n.ast) is not None), follow=NORMAL)
+        tests = [n for n in g.nodes if n.kind == "test" and pat.match("self.connection_id != $N", n.ast) is not None]
+        pth = g.reach([g.entry.id], lambda n: n in setc, avoid=lambda n: n.kind == "test" and any(isinstance(x, ast.Attribute) and x.attr == "connection_id" for x in ast.walk(n.ast)), follow=NORMAL)
         rep.check("C16.P5", "connect|order", f, bool(setc) and pth is None, "__connected = True only after the identity test",
                   "the provider is marked connected before the identity test", witness=describe_path(pth) if pth else None)
         em = ctx.prog.cls("EventManager")
